@@ -80,6 +80,9 @@ def generate(seed, tier, index):
         # thread having just exited).  The event it hits is lost - what the statement still demands afterwards is judged by
         # judge_after_input_fault(): a libwayland connection is announced once and closed only by its destruction
         cfg['fault_in_selected_thread'] = [rng.choice([0, 0, 1, 1, 2, 3, 4, 6]), rng.choice(['KeyboardInterrupt', 'error'])]
+    elif rng.random() < 0.1 and not (tier == 'thorough' and index < 16):
+        # the same kind of fault elsewhere: Ctrl-C lands inside the j-th read of the inferior's memory during the k-th message hit
+        cfg['ctrl_c_in_memory_read'] = [rng.choice([0, 0, 1, 2, 3, 5, 8, 13]), rng.choice([0, 1, 2, 3, 5, 8, 12, 20, 30])]
     if tier == 'thorough' and index < 16:
         cfg['calibrate_real_gdb'] = True     # stub fidelity (only used when no foreign-thread message occurred: the C program is single-threaded)
     return {'prop': ID, 'seed': seed, 'config': cfg, 'intents': intents}
@@ -104,6 +107,7 @@ def judge_after_input_fault(sc, sim, V):
     it; no message ever produces a Closed notice; destroying an announced connection reports it closed, exactly once and
     under the name it was announced with, destroying any other is silent; names are unique and the open flags agree."""
     outs_by_seq = [(s, p) for s, k, p in sim.rec.events if k == 'out']
+    fault_desc = sc['config'].get('fault_in_selected_thread') or ['memory-read'] + list(sc['config'].get('ctrl_c_in_memory_read') or [])
     announced = {}      # world connection index -> name
     closed = set()
     events = []
@@ -123,7 +127,7 @@ def judge_after_input_fault(sc, sim, V):
             else:
                 what = h.get('what') or ('message' if h['kind'] == 'message' else h['kind'])
                 V.add('C15/exception', h['kind'] + ':' + what + ':' + c18.trigger_of(h['exception']),
-                      'exception left stop() of %s (%s) after an injected fault in gdb.selected_thread(): %s' % (h['spec'], what, h['exception'][-1200:]))
+                      'exception left stop() of %s (%s) after an injected fault (%r): %s' % (h['spec'], what, fault_desc, h['exception'][-1200:]))
                 continue
         if h.get('injected_fault') and h['kind'] == 'message':
             fault_conn = h['closure'].conn
@@ -132,7 +136,7 @@ def judge_after_input_fault(sc, sim, V):
             events.append('F' if h.get('injected_fault') else 'x' if lost else 'm')
             if any(n[0] == 'Closed' for n in notices):
                 V.add('C15/open-first', 'closed-by-message', 'a message on connection #%d (%s) produced notices %r: only libwayland '
-                      'destroying a connection closes it (fault %r)' % (ci, h['closure'].brief(), notices, sc['config']['fault_in_selected_thread']))
+                      'destroying a connection closes it (fault %r)' % (ci, h['closure'].brief(), notices, fault_desc))
                 break
             news = [n for n in notices if n[0] == 'New']
             if len(news) > 1 or (news and ci in announced):
@@ -161,7 +165,7 @@ def judge_after_input_fault(sc, sim, V):
         if got != want:
             V.add('C15/close-on-destroy', 'connections()-after-input-fault', 'connections() = %r, expected %r' % (got, want))
     V.bump('sessions_judged_after_input_fault')
-    key = ''.join(events) + '/st%r' % (sc['config']['fault_in_selected_thread'],)
+    key = ''.join(events) + '/st%r' % (fault_desc,)
     return {'violations': V.list, 'counters': V.counters, 'nt_keys': [key[:300]], 'inter_key': key[:400],
             'states': [], 'digest': sim.rec.digest(), 'canon': sim.rec.digest(True), 'sim_us': sim.clock.now_us, 'evals': 1,
             'sample': {'config': sc['config'], 'events': key[:120]}}
@@ -175,7 +179,8 @@ def execute(sc):
     V.counters.update(sim.counters)
     if sim.start_exception:
         V.add('C15/exception', 'startup', sim.start_exception[-1500:])
-    if sc['config'].get('fault_in_selected_thread') is not None and any(h.get('injected_fault') for h in sim.hits):
+    if ((sc['config'].get('fault_in_selected_thread') is not None or sc['config'].get('ctrl_c_in_memory_read') is not None)
+            and any(h.get('injected_fault') for h in sim.hits)):
         return judge_after_input_fault(sc, sim, V)
     names = {ci: W.letters(k, True) for k, ci in enumerate(sim.order)}
     seen_foreign = False
@@ -191,7 +196,7 @@ def execute(sc):
         if h['exception']:
             what = h.get('what') or ('message' if h['kind'] == 'message' else h['kind'])
             V.add('C15/exception', h['kind'] + ':' + what + ':' + c18.trigger_of(h['exception']),
-                  'exception left stop() of %s (%s): %s' % (h['spec'], what, h['exception'][-1200:]))
+                  'exception left stop() of %s (%s): %s' % (h['spec'], what, fault_desc, h['exception'][-1200:]))
             continue
         if h['kind'] == 'message':
             cl = h['closure']
